@@ -638,27 +638,32 @@ func (s *scope) interpretExpression(expr *Expression) pyObject {
 }
 
 func (s *scope) interpretOps(obj pyObject, ops []OpExpression) pyObject {
-	// Quick short circuit if there's only one operator
-	if len(ops) == 1 {
-		return s.interpretOp(obj, ops[0])
+	// The operators are applied left to right; the operators that follow one and bind more tightly than it
+	// make up its right operand (or, for a unary operator, its only operand) and are evaluated first.
+	for len(ops) > 0 {
+		op := ops[0]
+		n := 1
+		for n < len(ops) && ops[n].Op.Precedence() > op.Op.Precedence() {
+			n++
+		}
+		tighter := ops[1:n]
+		ops = ops[n:]
+		if len(tighter) == 0 {
+			obj = s.interpretOp(obj, op)
+		} else if op.Op.Lazy() && obj.IsTruthy() != (op.Op == And) {
+			continue // short-circuits: the right operand is not evaluated
+		} else if op.Expr == nil {
+			// Unary expression
+			obj = s.interpretOp(s.interpretOps(obj, tighter), op)
+		} else {
+			nobj := s.interpretOps(s.interpretExpression(op.Expr), tighter)
+			obj = s.interpretOp(obj, OpExpression{
+				Op:   op.Op,
+				Expr: &Expression{optimised: &optimisedExpression{Constant: nobj}},
+			})
+		}
 	}
-	// Multiple operators, need to take precedence into account
-	if ops[0].Op.Precedence() >= ops[1].Op.Precedence() {
-		// The next operator is not higher than us so we can evaluate one more expression
-		return s.interpretOps(s.interpretOp(obj, ops[0]), ops[1:])
-	}
-	// Next operator does have higher precedence so we do that first, unless we short-circuit
-	if ops[0].Op.Lazy() && obj.IsTruthy() != (ops[0].Op == And) {
-		return obj
-	} else if ops[0].Expr == nil {
-		// Unary expression
-		return s.interpretOp(s.interpretOps(obj, ops[1:]), ops[0])
-	}
-	nobj := s.interpretOps(s.interpretExpression(ops[0].Expr), ops[1:])
-	return s.interpretOp(obj, OpExpression{
-		Op:   ops[0].Op,
-		Expr: &Expression{optimised: &optimisedExpression{Constant: nobj}},
-	})
+	return obj
 }
 
 // objectsEqual implements == on two objects. Lists and dicts are compared by their contents, so that a frozen
